@@ -116,6 +116,24 @@ mod tls;
 mod value;
 mod writers;
 
+/// Verification hooks (only with the `verif-hooks` feature): lets a test harness lower the
+/// maximum packet payload size so that packet splitting can be exercised with small messages.
+#[cfg(feature = "verif-hooks")]
+pub mod verif {
+    use std::cell::Cell;
+    thread_local! {
+        static PACKET_LIMIT: Cell<usize> = Cell::new(16_777_215);
+    }
+    /// Set the maximum packet payload size used by this thread's connections (1..=16_777_215).
+    pub fn set_packet_limit(m: usize) {
+        assert!((1..=16_777_215).contains(&m));
+        PACKET_LIMIT.with(|l| l.set(m));
+    }
+    pub(crate) fn packet_limit() -> usize {
+        PACKET_LIMIT.with(|l| l.get())
+    }
+}
+
 /// Meta-information abot a single column, used either to describe a prepared statement parameter
 /// or an output column.
 #[derive(Debug, Clone, PartialEq, Eq)]
